@@ -121,13 +121,18 @@ func (pkh *eonPubKeyHandler) queryAndHandleNewEonPubKeys(ctx context.Context) er
 			KeyperConfigIndex: keyperIndex,
 			Eon:               eon,
 		}
+		// The query above has already deleted all pending keys, so every one of them has to be
+		// handed over here: do not return after the first key.
 		if pkh.broadcastEonPubKey {
-			err := pkh.broadcastEonPublicKey(ctx, eonPubKey)
-			return errors.Wrap(err, "failed to broadcast eon public key")
+			if err := pkh.broadcastEonPublicKey(ctx, eonPubKey); err != nil {
+				return errors.Wrap(err, "failed to broadcast eon public key")
+			}
+			continue
 		}
 		if pkh.eonPubkeyHandler != nil {
-			err := pkh.eonPubkeyHandler(ctx, eonPubKey)
-			return errors.Wrap(err, "failed to handle eon public key")
+			if err := pkh.eonPubkeyHandler(ctx, eonPubKey); err != nil {
+				return errors.Wrap(err, "failed to handle eon public key")
+			}
 		}
 	}
 	return nil
